@@ -35,7 +35,7 @@ import (
 
 // ---- configuration of one history ----
 type config struct {
-	Init      []byte `json:"-"`         // = stream(InitSeed, InitLen), or InitLit
+	Init      []byte `json:"-"` // = stream(InitSeed, InitLen), or InitLit
 	InitSeed  int    `json:"initSeed"`
 	InitLen   int    `json:"initLen"`
 	InitLit   []byte `json:"initLit,omitempty"`
@@ -61,7 +61,7 @@ type op struct {
 }
 
 // ---- deterministic byte streams, mirrored by gen/ex in M_C10.v ----
-func genByte(seed, i int) byte { return byte(1 + (seed*131+i*7+(i/255)*3)%255) }
+func genByte(seed, i int) byte { return byte(1 + (i*i*7+i*(2*seed+3)+seed*101)%251) }
 
 func stream(seed, n int) []byte {
 	b := make([]byte, n)
@@ -243,6 +243,16 @@ func runHistory(e *vh.Env, c *config, ops []op) (done []op, obs []string, oracle
 	ctx, cancel := context.WithCancel(context.Background())
 	defer cancel()
 	sawDigestTooLarge = false
+	materialize(c, ops)
+	var srcs []src
+	if c.InitLit == nil {
+		srcs = append(srcs, src{c.InitSeed, c.InitLen})
+	}
+	for _, o := range ops {
+		if (o.Kind == "write" || o.Kind == "writeat") && o.Lit == nil && o.Len > 0 {
+			srcs = append(srcs, src{o.Seed, o.Len})
+		}
+	}
 	ds := mdagmock.Mock()
 	nd, err := buildInitial(ctx, c, ds)
 	if err != nil {
@@ -286,11 +296,11 @@ func runHistory(e *vh.Env, c *config, ops []op) (done []op, obs []string, oracle
 			case "read":
 				b := make([]byte, o.N)
 				n, err := dm.Read(b)
-				ob = vh.App("BRead", vh.Bytes(b[:n]), errClass(err))
+				ob = vh.App("BRead", encode(b[:n], srcs), errClass(err))
 			case "ctxread":
 				b := make([]byte, o.N)
 				n, err := dm.CtxReadFull(ctx, b)
-				ob = vh.App("BRead", vh.Bytes(b[:n]), errClass(err))
+				ob = vh.App("BRead", encode(b[:n], srcs), errClass(err))
 			case "truncate":
 				ob = vh.App("BErr", errClass(dm.Truncate(o.Off)))
 			case "size":
@@ -314,7 +324,7 @@ func runHistory(e *vh.Env, c *config, ops []op) (done []op, obs []string, oracle
 					ob = vh.App("BErr", errClass(err))
 					return
 				}
-				ob = vh.App("BNode", vh.Bytes(content), vh.ZU(dr.Size()))
+				ob = vh.App("BNode", encode(content, srcs), vh.ZU(dr.Size()))
 				if _, bad := checkDag(ctx, nd, ds); bad != "" {
 					oracle = append(oracle, "GetNode DAG has inconsistent recorded sizes: "+bad)
 				}
@@ -344,12 +354,26 @@ func runHistory(e *vh.Env, c *config, ops []op) (done []op, obs []string, oracle
 	return done, obs, oracle, inlineRoot
 }
 
+func (o op) payloadCoq() string {
+	if o.Lit != nil {
+		return vh.App("ex", vh.List([]string{vh.App("SLit", vh.Bytes(o.Lit))}))
+	}
+	return vh.App("ex", vh.List([]string{vh.App("SGen", vh.Z(int64(o.Seed)), "0", vh.Z(int64(o.Len)))}))
+}
+
+func (c *config) initCoq() string {
+	if c.InitLit != nil {
+		return vh.App("ex", vh.List([]string{vh.App("SLit", vh.Bytes(c.InitLit))}))
+	}
+	return vh.App("ex", vh.List([]string{vh.App("SGen", vh.Z(int64(c.InitSeed)), "0", vh.Z(int64(c.InitLen)))}))
+}
+
 func (o op) coq() string {
 	switch o.Kind {
 	case "write":
-		return vh.App("OWrite", vh.Bytes(o.Data))
+		return vh.App("OWrite", o.payloadCoq())
 	case "writeat":
-		return vh.App("OWriteAt", vh.Bytes(o.Data), vh.Z(o.Off))
+		return vh.App("OWriteAt", o.payloadCoq(), vh.Z(o.Off))
 	case "seek":
 		return vh.App("OSeek", vh.Z(o.Off), vh.Z(int64(o.Whence)))
 	case "read", "ctxread":
@@ -386,7 +410,8 @@ func (s *shadow) writeAt(off int64, b []byte) {
 	}
 }
 
-func payload(e *vh.Env, chunk int) []byte {
+// payloadLen draws the length of a write: 0, tiny, up to 64, around one chunk, two chunks
+func payloadLen(e *vh.Env, chunk int) int {
 	r := e.Rng
 	var n int
 	switch x := r.Intn(20); {
@@ -407,11 +432,7 @@ func payload(e *vh.Env, chunk int) []byte {
 	if n > 160 {
 		n = 160
 	}
-	b := make([]byte, n)
-	for i := range b {
-		b[i] = byte(1 + r.Intn(255))
-	}
-	return b
+	return n
 }
 
 func genConfig(e *vh.Env) *config {
@@ -430,10 +451,7 @@ func genConfig(e *vh.Env) *config {
 	default:
 		n = r.Intn(4097)
 	}
-	c.Init = make([]byte, n)
-	for i := range c.Init {
-		c.Init[i] = byte(1 + r.Intn(255))
-	}
+	c.InitSeed, c.InitLen = r.Intn(250), n
 	chunks := []int{4, 5, 7, 8, 16, 31, 32, 64, 100, 512}
 	c.InitChunk = chunks[r.Intn(len(chunks))]
 	c.ModChunk = chunks[r.Intn(len(chunks))]
@@ -462,7 +480,12 @@ func genConfig(e *vh.Env) *config {
 
 func genOps(e *vh.Env, c *config) []op {
 	r := e.Rng
-	sh := &shadow{content: append([]byte(nil), c.Init...)}
+	sh := &shadow{content: stream(c.InitSeed, c.InitLen)}
+	seed := 1000 + r.Intn(1000)
+	mkPayload := func(n int) (int, int, []byte) {
+		seed += 1 + r.Intn(5)
+		return seed, n, stream(seed, n)
+	}
 	n := 1 + r.Intn(20)
 	var ops []op
 	size := func() int64 { return int64(len(sh.content)) }
@@ -495,22 +518,21 @@ func genOps(e *vh.Env, c *config) []op {
 		var o op
 		switch x := r.Intn(100); {
 		case x < 22:
-			o = op{Kind: "write", Data: payload(e, c.ModChunk)}
+			o = op{Kind: "write"}
+			o.Seed, o.Len, o.Data = mkPayload(payloadLen(e, c.ModChunk))
 			sh.writeAt(sh.pos, o.Data)
 			sh.lastStart, sh.lastLen = sh.pos, len(o.Data)
 			sh.pos += int64(len(o.Data))
 		case x < 50:
-			o = op{Kind: "writeat", Data: payload(e, c.ModChunk), Off: anyOff()}
+			o = op{Kind: "writeat", Off: anyOff()}
+			o.Seed, o.Len, o.Data = mkPayload(payloadLen(e, c.ModChunk))
 			if r.Intn(3) == 0 { // aim at the pending write with a shorter / equal / longer payload
 				o.Off = sh.lastStart
 				ln := sh.lastLen + r.Intn(3) - 1
 				if ln < 0 {
 					ln = 0
 				}
-				o.Data = make([]byte, ln)
-				for j := range o.Data {
-					o.Data[j] = byte(1 + r.Intn(255))
-				}
+				o.Seed, o.Len, o.Data = mkPayload(ln)
 			}
 			sh.writeAt(o.Off, o.Data)
 			sh.lastStart, sh.lastLen = o.Off, len(o.Data)
@@ -643,10 +665,10 @@ func b(s string) []byte { return []byte(s) }
 func corpus() [][]op {
 	return [][]op{
 		// C10-1 WriteAt overlap with buffered data
-		{{Kind: "write", Data: b("abcdef")}, {Kind: "writeat", Data: b("XY"), Off: 0}, {Kind: "getnode"}},
+		{{Kind: "write", Lit: b("abcdef")}, {Kind: "writeat", Lit: b("XY"), Off: 0}, {Kind: "getnode"}},
 		// C10-2 WriteAt never sets curWrOff
-		{{Kind: "writeat", Data: b("AAAA"), Off: 10}, {Kind: "writeat", Data: b("BB"), Off: 4}, {Kind: "getnode"}},
-		{{Kind: "write", Data: b("abcdef")}, {Kind: "writeat", Data: b("UVWXYZ"), Off: 0}, {Kind: "seek", Off: 0, Whence: 1}, {Kind: "getnode"}},
+		{{Kind: "writeat", Lit: b("AAAA"), Off: 10}, {Kind: "writeat", Lit: b("BB"), Off: 4}, {Kind: "getnode"}},
+		{{Kind: "write", Lit: b("abcdef")}, {Kind: "writeat", Lit: b("UVWXYZ"), Off: 0}, {Kind: "seek", Off: 0, Whence: 1}, {Kind: "getnode"}},
 		// C10-3 Seek(SeekEnd) sign
 		{{Kind: "seek", Off: -3, Whence: 2}, {Kind: "size"}, {Kind: "read", N: 10}, {Kind: "getnode"}},
 		{{Kind: "seek", Off: 3, Whence: 2}, {Kind: "size"}, {Kind: "getnode"}},
@@ -655,8 +677,8 @@ func corpus() [][]op {
 		{{Kind: "read", N: 2}, {Kind: "seek", Off: 15, Whence: 0}, {Kind: "seek", Off: 8, Whence: 0}, {Kind: "read", N: 10}, {Kind: "getnode"}},
 		{{Kind: "read", N: 2}, {Kind: "truncate", Off: 14}, {Kind: "read", N: 100}, {Kind: "getnode"}},
 		// C10-5 Read does not advance writeStart
-		{{Kind: "read", N: 2}, {Kind: "write", Data: b("X")}, {Kind: "getnode"}},
-		{{Kind: "ctxread", N: 3}, {Kind: "writeat", Data: b("XY"), Off: 3}, {Kind: "getnode"}},
+		{{Kind: "read", N: 2}, {Kind: "write", Lit: b("X")}, {Kind: "getnode"}},
+		{{Kind: "ctxread", N: 3}, {Kind: "writeat", Lit: b("XY"), Off: 3}, {Kind: "getnode"}},
 		// C10-6 Seek before the start
 		{{Kind: "seek", Off: -1, Whence: 0}, {Kind: "seek", Off: 0, Whence: 1}, {Kind: "getnode"}},
 		{{Kind: "seek", Off: -11, Whence: 2}, {Kind: "size"}, {Kind: "getnode"}},
@@ -704,10 +726,10 @@ func TestC10(t *testing.T) {
 	for _, ops := range corp {
 		init := ten
 		if ops[0].Kind == "write" || ops[0].Kind == "writeat" {
-			init = nil
+			init = []byte{}
 		}
-		jobs = append(jobs, job{&config{Init: init, Layout: "trickle", InitChunk: 512, InitWidth: 4, Prefix: "v0", ModChunk: 512, ModWidth: 4, ModRaw: -1}, ops})
-		jobs = append(jobs, job{&config{Init: init, Layout: "trickle", InitChunk: 4, InitWidth: 2, Prefix: "v1", InitRaw: true, ModChunk: 4, ModWidth: 2, ModRaw: -1}, ops})
+		jobs = append(jobs, job{&config{InitLit: init, Layout: "trickle", InitChunk: 512, InitWidth: 4, Prefix: "v0", ModChunk: 512, ModWidth: 4, ModRaw: -1}, ops})
+		jobs = append(jobs, job{&config{InitLit: init, Layout: "trickle", InitChunk: 4, InitWidth: 2, Prefix: "v1", InitRaw: true, ModChunk: 4, ModWidth: 2, ModRaw: -1}, ops})
 	}
 	for len(jobs) < n {
 		c := genConfig(e)
@@ -737,7 +759,7 @@ func TestC10(t *testing.T) {
 			hint = 7
 			st.Count("signature:C10-7 (identity digest too large)")
 		}
-		term := vh.App("Build_case", vh.Bytes(j.c.Init), vh.ListOf(done, func(o op) string { return o.coq() }), vh.List(obs),
+		term := vh.App("Build_case", j.c.initCoq(), vh.ListOf(done, func(o op) string { return o.coq() }), vh.List(obs),
 			vh.N(uint64(hint)), pref)
 		cs.Add(term, rp)
 		writes, others := 0, 0
